@@ -8,6 +8,7 @@ package main
 // error response - never "not found" (code -32009), null or an empty list.
 
 import (
+	"context"
 	"crypto/sha256"
 	"encoding/hex"
 	"encoding/json"
@@ -16,8 +17,31 @@ import (
 	"path/filepath"
 	"strings"
 
+	old_faithful_grpc "github.com/rpcpool/yellowstone-faithful/old-faithful-proto/old-faithful-grpc"
 	"github.com/rpcpool/yellowstone-faithful/zzverif/ev"
+	"google.golang.org/grpc/codes"
+	"google.golang.org/grpc/status"
+	"google.golang.org/protobuf/proto"
 )
+
+// c13GrpcAns classifies the outcome of a unary gRPC method.
+func c13GrpcAns(m proto.Message, err error) c13Ans {
+	if err != nil {
+		if status.Code(err) == codes.NotFound {
+			return c13Ans{c13NotFound, err.Error()}
+		}
+		return c13FromErr(err)
+	}
+	b, merr := proto.MarshalOptions{Deterministic: true}.Marshal(m)
+	if merr != nil {
+		return c13Ans{c13Err, "cannot marshal the response: " + merr.Error()}
+	}
+	if len(b) == 0 {
+		return c13Ans{c13Empty, "empty response message"}
+	}
+	h := sha256.Sum256(b)
+	return c13Ans{c13Val, fmt.Sprintf("%d bytes sha256=%s", len(b), hex.EncodeToString(h[:8]))}
+}
 
 func c13RpcAns(resp []byte) c13Ans {
 	var r struct {
@@ -65,7 +89,11 @@ func c13RpcTarget(f *c13Fixtures, e, companion *c13EpochFx, sp c13RpcSpec, twoEp
 	if twoEpochs {
 		variant = "two-epochs"
 	}
-	t := &c13Target{Part: "jsonrpc", Fixture: e.Name, Site: "jsonrpc/" + sp.method + "/" + sp.kind + "-cut/" + variant}
+	surface := "jsonrpc/" + sp.method
+	if strings.HasPrefix(sp.method, "grpc.") {
+		surface = "grpc/" + strings.TrimPrefix(sp.method, "grpc.")
+	}
+	t := &c13Target{Part: "rpc", Fixture: e.Name, Site: surface + "/" + sp.kind + "-cut/" + variant}
 	work := f.workDir()
 	var src string
 	gsfaFile := ""
@@ -130,7 +158,30 @@ func c13RpcTarget(f *c13Fixtures, e, companion *c13EpochFx, sp c13RpcSpec, twoEp
 		os.Remove(cfgPath)
 	}
 	var bodies []string
+	var grpcCall func(multi *MultiEpoch, k int) c13Ans
 	switch sp.method {
+	case "grpc.GetTransaction":
+		for _, s := range e.Sigs {
+			t.Keys = append(t.Keys, s.String())
+		}
+		grpcCall = func(multi *MultiEpoch, k int) c13Ans {
+			res, err := multi.GetTransaction(context.Background(), &old_faithful_grpc.TransactionRequest{Signature: e.Sigs[k][:]})
+			if err != nil {
+				return c13GrpcAns(nil, err)
+			}
+			return c13GrpcAns(res, nil)
+		}
+	case "grpc.GetBlock":
+		for _, s := range e.Slots {
+			t.Keys = append(t.Keys, fmt.Sprint(s))
+		}
+		grpcCall = func(multi *MultiEpoch, k int) c13Ans {
+			res, err := multi.GetBlock(context.Background(), &old_faithful_grpc.BlockRequest{Slot: e.Slots[k]})
+			if err != nil {
+				return c13GrpcAns(nil, err)
+			}
+			return c13GrpcAns(res, nil)
+		}
 	case "getTransaction":
 		for _, s := range e.Sigs {
 			t.Keys = append(t.Keys, s.String())
@@ -167,7 +218,7 @@ func c13RpcTarget(f *c13Fixtures, e, companion *c13EpochFx, sp c13RpcSpec, twoEp
 		}
 		sigs := c13SigsOf(e)
 		t.Region, t.Bounds = lay.region, lay.bounds()
-		if sp.method == "getTransaction" {
+		if strings.HasSuffix(sp.method, "etTransaction") {
 			t.KeyBounds = func(k int) []int64 { return lay.keyBounds(sigs[k]) }
 		}
 	case sp.role == "slot_to_blocktime":
@@ -210,6 +261,9 @@ func c13RpcTarget(f *c13Fixtures, e, companion *c13EpochFx, sp c13RpcSpec, twoEp
 		multi.AddEpoch(e.Model.Epoch, ep)
 		h := newMultiEpochHandler(multi, nil)
 		return &c13FuncHandle{func(k int) c13Ans {
+			if grpcCall != nil {
+				return grpcCall(multi, k)
+			}
 			_, resp := vfCall(h, bodies[k])
 			return c13RpcAns(resp)
 		}, func() { ep.Close() }}, nil
@@ -221,7 +275,7 @@ func c13RpcTargets(f *c13Fixtures) []*c13Target {
 	var out []*c13Target
 	e, comp := f.epoch("small"), f.epoch("tiny")
 	if e == nil || comp == nil || e.Model.Epoch == comp.Model.Epoch {
-		f.setupErr("jsonrpc", "needs the small and the tiny epoch with different epoch numbers")
+		f.setupErr("rpc", "needs the small and the tiny epoch with different epoch numbers")
 		return nil
 	}
 	lim := c13Limits{nRandom: ev.Pick(30, 600), maxCuts: ev.Pick(110, 2500), maxKeys: ev.Pick(24, 200)}
@@ -236,11 +290,13 @@ func c13RpcTargets(f *c13Fixtures) []*c13Target {
 		{"slot_to_blocktime", "slot-to-blocktime", "getBlockTime"},
 		{"gsfa:pubkey-to-offset-and-size.index", "gsfa-pubkey-to-offset-and-size", "getSignaturesForAddress"},
 		{"gsfa:linked-log", "gsfa-linked-log", "getSignaturesForAddress"},
+		{"sig_to_cid", "sig-to-cid", "grpc.GetTransaction"},
+		{"cid_to_offset_and_size", "cid-to-offset-and-size", "grpc.GetBlock"},
 	}
 	for _, sp := range specs {
 		t, err := c13RpcTarget(f, e, comp, sp, true, lim)
 		if err != nil {
-			f.setupErr("jsonrpc", "target setup: %v", err)
+			f.setupErr("rpc", "target setup: %v", err)
 			continue
 		}
 		out = append(out, t)
@@ -249,7 +305,7 @@ func c13RpcTargets(f *c13Fixtures) []*c13Target {
 	if t, err := c13RpcTarget(f, e, comp, specs[0], false, lim); err == nil {
 		out = append(out, t)
 	} else {
-		f.setupErr("jsonrpc", "target setup: %v", err)
+		f.setupErr("rpc", "target setup: %v", err)
 	}
 	return out
 }
